@@ -38,6 +38,7 @@ enum EvT : int
   EV_GET_LOGGER,     // a=slot b=found c=same object as created
   EV_TERMINAL,       // a=op kind b=arg
   EV_ARG_EVAL,       // a=id   (argument of a macro statement was evaluated)
+  EV_GET_SINK,       // a=sink b=found c=same object as the one in use
   EV_NOTE            // free
 };
 
